@@ -51,5 +51,5 @@ func VerifHas[K Key, V any](c *Cache[K, V], keyHash uint64) bool {
 // VerifAccount returns the number of accounted keys, the used cost and the max cost.
 func VerifAccount[K Key, V any](c *Cache[K, V]) (int, int64, int64) {
 	e := c.cachePolicy.evict
-	return len(e.keyCosts), e.used, e.maxCost
+	return len(e.keyCosts), e.used, verifMaxCost(c)
 }
